@@ -43,7 +43,8 @@ CASE_TIMEOUT = {"quick": 30, "thorough": 90}
 
 OPS = {"arith", "math", "index", "tensor", "compound", "deriv", "pow", "var"}
 PROF = Profile(ops=OPS, leaves={"coef", "const", "lit", "x", "eye"}, max_rank=2, elements="all", manifolds=True)
-SUBS = [["P", 1, []], ["P", 2, []], ["DG", 1, []], ["P", 1, "g"], ["P", 2, "g"], ["RT", 1], ["N1", 1], ["DGp", 1]]
+SUBS = [["P", 1, []], ["P", 2, []], ["DG", 1, []], ["P", 1, "g"], ["P", 2, "g"], ["RT", 1], ["N1", 1], ["DGp", 1],
+        ["P", 1, "gg"], ["Regge", 1], ["HHJ", 1]]
 
 
 def phys_size(spec, g):
@@ -51,6 +52,8 @@ def phys_size(spec, g):
         return int(np.prod(spec[2], dtype=int))
     if spec[0] in ("RT", "N1"):
         return g
+    if spec[0] in ("Regge", "HHJ", "GLS"):
+        return g * g
     return 1
 
 
@@ -68,6 +71,8 @@ def cases(draw, tier):
             sp = list(draw(st.sampled_from(SUBS)))
             if len(sp) > 2 and sp[2] == "g":
                 sp[2] = [g]
+            if len(sp) > 2 and sp[2] == "gg":
+                sp[2] = [g, g]
             subs.append(sp)
         n = sum(phys_size(s, g) for s in subs)
         world["fields"]["a0"] = dict(kind="arg", elem=["mixed", subs], shape=[n], number=0, part=None)
